@@ -178,6 +178,27 @@ func runC17(c *core.Ctx) {
 		c.Undecided("C17/count-bounded-by-group", "HeaderSigVerifier.verifyConsensusSize", vcs.Pos(), "the counted value compared with the threshold was not identified")
 		return
 	}
+	// the count may be produced by a helper of the package (one return): the accumulation is then the
+	// helper's, and a collection the helper ranges over is named by the argument it was handed
+	var via *ssa.Call
+	if call, isCall := countV.(*ssa.Call); isCall {
+		if h := call.Call.StaticCallee(); h != nil && h.Blocks != nil && h.Pkg == vcs.Pkg {
+			if rets := core.Returns(h); len(rets) == 1 && core.RetOperand(rets[0], 0) != nil {
+				via, countV = call, core.RetOperand(rets[0], 0)
+				c.Analysed(fname(h))
+			}
+		}
+	}
+	argName := func(v ssa.Value) string {
+		if p, isP := v.(*ssa.Parameter); isP && via != nil {
+			for i, hp := range via.Call.StaticCallee().Params {
+				if hp == p && i < len(via.Call.Args) {
+					return core.ExprKey(via.Call.Args[i])
+				}
+			}
+		}
+		return core.ExprKey(v)
+	}
 	incs := accumulationTerms(countV)
 	if len(incs) == 0 {
 		c.Undecided("C17/count-bounded-by-group", "HeaderSigVerifier.verifyConsensusSize", vcs.Pos(), "the signer count is not a recognised accumulation")
@@ -189,7 +210,7 @@ func runC17(c *core.Ctx) {
 		case *ssa.Const:
 			// +1 per iteration: the loop must be bounded by the group size
 			bounded := false
-			if l := core.InnermostLoop(vcs, t.at.Block()); l != nil {
+			if l := core.InnermostLoop(t.at.Parent(), t.at.Block()); l != nil {
 				for _, in := range l.Header.Instrs {
 					if b, isB := in.(*ssa.BinOp); isB && (b.Op == token.LSS || b.Op == token.LEQ) {
 						for v := range core.BackwardReach(b.Y) {
@@ -232,9 +253,9 @@ func runC17(c *core.Ctx) {
 	var fp []string
 	for _, t := range incs {
 		src := "?"
-		if l := core.InnermostLoop(vcs, t.at.Block()); l != nil {
+		if l := core.InnermostLoop(t.at.Parent(), t.at.Block()); l != nil {
 			if rs := l.RangeSource(); rs != nil {
-				src = "range " + core.ExprKey(rs)
+				src = "range " + argName(rs)
 			} else {
 				src = "loop"
 			}
